@@ -153,6 +153,15 @@ func refVarintValue(b []byte) *big.Int {
 }
 
 var verifVersion = primitive.ProtocolVersion4
+
+// magnitude bound of arbitrary big.Int values: quick 2^72, thorough 2^128
+func verifBigSetup() {
+	if verifThorough {
+		nd.BigBits(128)
+	} else {
+		nd.BigBits(72)
+	}
+}
 `
 
 func genCodecHarnesses(c *CheckCtx, prop string) error {
@@ -162,6 +171,10 @@ func genCodecHarnesses(c *CheckCtx, prop string) error {
 	}
 	pkg := pkgs[0]
 	mode := map[string]string{"C11": "mC11", "C12": "mC12", "C13": "mC13", "C14": "mC14"}[prop]
+	wrappers := mode != ""
+	if !wrappers {
+		mode = "0"
+	}
 	var lib, wr strings.Builder
 	lib.WriteString("package datacodec\n\nimport (\n\t\"bytes\"\n\t\"math/big\"\n\n\tnd \"" + ndPath + "\"\n\t\"" + repoModule + "/primitive\"\n)\n\nvar _ = bytes.Equal\nvar _ *big.Int\n")
 	lib.WriteString(codecLib)
@@ -187,7 +200,7 @@ func genCodecHarnesses(c *CheckCtx, prop string) error {
 			}
 			fn := fmt.Sprintf("verifEnc_%s_%s", cd.Var, tname(t))
 			w := func(f string, a ...interface{}) { fmt.Fprintf(&lib, f, a...) }
-			w("\nfunc %s(mode int) {\n", fn)
+			w("\nfunc %s(mode int) {\n\tnd.AllocBound(24)\n\tverifBigSetup()\n", fn)
 			if isBig {
 				w("\tx := nd.BigInt(\"x\")\n\tvar src interface{} = x\n")
 			} else {
@@ -211,7 +224,8 @@ func genCodecHarnesses(c *CheckCtx, prop string) error {
 			} else {
 				w("\tif len(b) < 1 || len(b) > 17 {\n\t\tnd.Assert(len(b) >= 1, \"%s: a varint has at least one byte\")\n\t\treturn\n\t}\n", cd.Var)
 				if isBig {
-					w("\tif mode&mC13 != 0 {\n\t\tnd.Assert(refVarintValue(b).Cmp(x) == 0, \"%s.Encode(%s): the encoded value equals the source value\")\n\t}\n", cd.Var, t)
+					w("\tif mode&(mC13|mC12) != 0 {\n\t\tnd.Assert(refVarintValue(b).Cmp(x) == 0, \"%s.Encode(%s): the encoded value equals the source value\")\n\t}\n", cd.Var, t)
+					w("\tif mode&mC12 != 0 && len(b) >= 2 {\n\t\tr0 := b[0] == 0x00 && b[1]&0x80 == 0\n\t\trF := b[0] == 0xFF && b[1]&0x80 != 0\n\t\tnd.Assert(!r0, \"varint is minimal (no redundant leading 0x00)\")\n\t\tnd.Assert(!rF, \"varint is minimal (no redundant leading 0xFF)\")\n\t}\n")
 				} else {
 					w("\tif mode&mC13 != 0 {\n\t\tnd.Assert(nd.BigEqual(refVarintValue(b), uint64(x), %v), \"%s.Encode(%s): the encoded value equals the source value\")\n\t}\n", gi.signed, cd.Var, t)
 					w("\tif mode&mC12 != 0 {\n\t\tnd.Assert(bytes.Equal(b, refVarint(uint64(x), %v)), \"%s.Encode(%s): minimal two's complement varint\")\n\t}\n", gi.signed, cd.Var, t)
@@ -246,7 +260,9 @@ func genCodecHarnesses(c *CheckCtx, prop string) error {
 				}
 			}
 			w("\t}\n}\n")
-			fmt.Fprintf(&wr, "func Verif%s_Enc_%s_%s() { %s(%s) }\n", prop, cd.Var, tname(t), fn, mode)
+			if wrappers && prop != "C14" {
+				fmt.Fprintf(&wr, "func Verif%s_Enc_%s_%s() { %s(%s) }\n", prop, cd.Var, tname(t), fn, mode)
+			}
 			covered++
 		}
 		// ---------- decode direction ----------
@@ -265,7 +281,7 @@ func genCodecHarnesses(c *CheckCtx, prop string) error {
 			}
 			fn := fmt.Sprintf("verifDec_%s_%s", cd.Var, tname(t))
 			w := func(f string, a ...interface{}) { fmt.Fprintf(&lib, f, a...) }
-			w("\nfunc %s(mode int) {\n", fn)
+			w("\nfunc %s(mode int) {\n\tnd.AllocBound(24)\n\tverifBigSetup()\n", fn)
 			if cd.Width > 0 {
 				w("\tb := nd.Bytes(\"b\", %d)\n", cd.Width)
 			} else {
@@ -289,7 +305,9 @@ func genCodecHarnesses(c *CheckCtx, prop string) error {
 				w("\t\tnd.Assert(nd.BigEqual(refVarintValue(b), uint64(d), %v), \"%s.Decode(%s): the delivered value equals the encoded value\")\n", gi.signed, cd.Var, t)
 			}
 			w("\t} else {\n\t\tnd.Assert(true, \"rejected\")\n\t}\n}\n")
-			fmt.Fprintf(&wr, "func Verif%s_Dec_%s_%s() { %s(%s) }\n", prop, cd.Var, tname(t), fn, mode)
+			if wrappers && (prop == "C13" || prop == "C12") {
+				fmt.Fprintf(&wr, "func Verif%s_Dec_%s_%s() { %s(%s) }\n", prop, cd.Var, tname(t), fn, mode)
+			}
 			covered++
 			// ---------- NULL (C14) ----------
 			nf := fmt.Sprintf("verifNull_%s_%s", cd.Var, tname(t))
@@ -308,6 +326,27 @@ func genCodecHarnesses(c *CheckCtx, prop string) error {
 			if prop == "C14" {
 				fmt.Fprintf(&wr, "func VerifC14_Null_%s_%s() { %s(mC14) }\n", cd.Var, tname(t), nf)
 			}
+		}
+	}
+	// wrappers for the hand-written scalar harnesses (harness/datacodec/zz_verif_scalars.go)
+	scalars := []struct {
+		name, fn string
+		props    string
+	}{
+		{"Duration_Encode", "verifDurationEncode", "C11 C12"}, {"Duration_DecodeSpecBytes", "verifDurationDecode", "C12 C13"}, {"Duration_Null", "verifDurationNull", "C14"},
+		{"Float_Encode_float32", "verifFloatEncode32", "C11 C12"}, {"Float_Encode_float64", "verifFloatEncode64", "C11 C13"},
+		{"Double_Encode_float64", "verifDoubleEncode64", "C11 C12"}, {"Double_Decode_Pfloat32", "verifDoubleDecode32", "C13"}, {"FloatDouble_Null", "verifFloatNull", "C14"},
+		{"Boolean", "verifBoolean", "C11 C12"}, {"Boolean_Null", "verifBooleanNull", "C14"},
+		{"Date_Encode_int64days", "verifDateInt", "C11 C12 C13"}, {"Date_Decode_Pint32", "verifDateDecode", "C12 C13"},
+		{"Time_Encode_int64nanos", "verifTimeInt", "C11 C12 C13"}, {"Time_Encode_Duration", "verifTimeDuration", "C11 C12 C13"},
+		{"Timestamp_Encode_int64millis", "verifTimestampInt", "C11 C12 C13"},
+		{"Decimal", "verifDecimal", "C11 C12 C13"}, {"Decimal_Null", "verifDecimalNull", "C14"},
+		{"Varint_SpecTable", "verifVarintSpecTable", "C12"},
+	}
+	for _, sc := range scalars {
+		if wrappers && strings.Contains(sc.props, prop) {
+			fmt.Fprintf(&wr, "func Verif%s_%s() { %s(%s) }\n", prop, sc.name, sc.fn, mode)
+			covered++
 		}
 	}
 	sort.Strings(notCovered)
